@@ -7,6 +7,8 @@ Correspondence (model ≈ code), all on a virtual clock (harness/c06_util.py):
      parsed with `Message.decode(data, remote)`; remotes are real `UDP6EndpointAddress`
      objects (real `blockwise_key`).  Lean: `BwServer.step` folded over the script.
   T  the real `TimeoutDict` vs Lean `TD` on timed get/set/del/mutate sequences.
+  D  the same scripts against bare `Block1Spool` / `Block2Cache` objects (exception classes
+     ContinueException / IncompleteException / BadRequest rendered by their own to_message).
   K  the real `_extract_block_key` equality vs Lean `blockKey` over every option number class.
 Oracle (independent reading of the property / RFC 7959, shares no code with aiocoap or the
 model): bodies the handler saw vs what was sent; 2.31 echo; 4.08 / 4.00 cases; no 5.xx; Block2
@@ -76,14 +78,21 @@ def hexopts(opts):
 
 # ----------------------------------------------------------------------------- running a script
 
-def run_script(aiocoap, script):
-    """Run one R script on the implementation.  Returns (model line, impl output, observations)."""
+def run_script(aiocoap, script, direct=False):
+    """Run one R script on the implementation.  Returns (model line, impl output, observations).
+    direct=True: against bare Block1Spool/Block2Cache objects instead of a Resource."""
     w = U.World(aiocoap)
     try:
+        if direct:
+            w.make_direct(4)
         ts = set()
         for r in w.resources:
             ts.add(r._block1._assemblies.timeout)
             ts.add(r._block2._completes.timeout)
+        if direct:
+            for sp, ca in w.direct:
+                ts.add(sp._assemblies.timeout)
+                ts.add(ca._completes.timeout)
         if len(ts) != 1:
             raise HarnessError(f"spool/cache timeouts differ: {ts}")
         T = U.ticks_of(ts.pop())
@@ -106,7 +115,8 @@ def run_script(aiocoap, script):
                 str(int(msg.code)), U.blk_raw(msg, 27), U.blk_raw(msg, 23),
                 U.opts_str(U.opts_of(msg)), pspec,
                 str(hcode), U.opts_str(hexopts(hopts)), spec_str(hspec)]))
-            resp, exc, seen = w.request(st["res"], bool(st["asm"]), msg, (hcode, hexopts(hopts), hpayload))
+            call = w.request_direct if direct else w.request
+            resp, exc, seen = call(st["res"], bool(st["asm"]), msg, (hcode, hexopts(hopts), hpayload))
             rp = bytes(resp.payload)
             if len(seen) == 0:
                 s = "-"
@@ -873,7 +883,7 @@ def run(env, rep):
     rep.exhaustive_parts.append("szx 0..7 x body lengths k*size-1..k*size+1 for Block1 and Block2; idle times "
                                 "T-1..T+1, 2T-1..2T+1 x timer phase x keep-alive; maximum_payload_size edges; "
                                 "each component of the block key changed alone")
-    n = env.scale(260, 6000)
+    n = env.scale(1600, 20000)
     for j in range(n):
         scripts.append(gen_script(env.rng, T, big=(j % 7 == 0)))
     cases, lines, impl = [], [], []
@@ -905,16 +915,46 @@ def run(env, rep):
             rep.oracle_fail(script, v, key="R:" + v.split(": ", 1)[1][:60])
     if total and deviations * 2 > total:
         raise HarnessError(f"malformed stream is {deviations}/{total} of the request steps")
-    compare(env, rep, cases, lines, impl, what="render_to_pipe")
-    for need in ("R:response=2.31", "R:response=4.08", "R:response=4.00", "R:handler=assembled",
-                 "R:block2=later", "R:block2=first+more"):
+    outs = compare(env, rep, cases, lines, impl, what="render_to_pipe")
+    # coverage of the model's branches, measured on the model's own outputs (so that a defect of
+    # the implementation cannot hide as a generator problem)
+    for o in outs:
+        for tok in o.split(" "):
+            f = tok.split("|")
+            if len(f) != 6:
+                continue
+            if f[5] == "-" and f[0] in ("95", "136", "128") and f[4] == "-":
+                rep.count("model:refused=" + f[0])
+            if f[5] != "-":
+                rep.count("model:handler")
+            if f[2] != "-":
+                n, m, _ = f[2].split("/")
+                rep.count("model:block2=" + ("first" if n == "0" else "later") + ("+more" if m == "1" else ""))
+    for need in ("model:refused=95", "model:refused=136", "model:refused=128", "model:handler",
+                 "model:block2=later", "model:block2=later+more", "model:block2=first+more"):
         if not rep.hist.get(need):
             raise HarnessError(f"generator never reached {need}")
 
+    # ---- D: the same scripts against bare Block1Spool / Block2Cache objects
+    dcases, dlines, dimpl = [], [], []
+    for script, kinds in scripts[::2]:
+        line, out, obs = run_script(aiocoap, script, direct=True)
+        case = dict(script, kind="D")
+        dcases.append(case)
+        dlines.append(line)
+        dimpl.append(out)
+        rep.case(case, nontrivial=script_nontrivial(obs, script), sample_every=2000)
+        for o in obs:
+            if o["exc"]:
+                rep.count("D:exception=" + o["exc"])
+        v, idx = oracle_script(script, obs)
+        if v:
+            rep.oracle_fail(case, v, key="D:" + v.split(": ", 1)[1][:60])
+    compare(env, rep, dcases, dlines, dimpl, what="Block1Spool/Block2Cache")
     # ---- T: TimeoutDict
     tcases = [(c["T"], c["ops"]) for _, c in load_corpus("C06") if c.get("kind") == "T"]
     tcases += td_boundary()
-    for _ in range(env.scale(1500, 40000)):
+    for _ in range(env.scale(8000, 100000)):
         tcases.append(gen_td(env.rng))
     lines, impl, cases = [], [], []
     for (Tt, ops) in tcases:
@@ -961,8 +1001,8 @@ def run(env, rep):
 def replay(env, case):
     aiocoap = env.import_repo()
     kind = case.get("kind")
-    if kind == "R":
-        _, _, obs = run_script(aiocoap, case)
+    if kind in ("R", "D"):
+        _, _, obs = run_script(aiocoap, case, direct=(kind == "D"))
         return oracle_script(case, obs)[0]
     if kind == "T":
         return oracle_td(case["T"], case["ops"], run_td(aiocoap, case["T"], case["ops"]))
